@@ -191,12 +191,35 @@ def _stream_sink(body):
     fl = None
     for st in init.body:
         if isinstance(st, ast.Assign) and _u(st.targets[0]) == "self._flushable":
-            fl = _u(st.value).replace('"', "'")
+            fl = st.value
     if fl is None:
         raise Unsupported("StreamSink.__init__: self._flushable not assigned")
-    ok = fl in ("callable(getattr(stream, 'flush', None))",)
-    body.append("/-- `self._flushable = %s` is `callable(getattr(stream, \"flush\", None))` -/" % fl)
-    body.append("def flushableIffCallableFlush : Bool := %s" % ("true" if ok else "false"))
+
+    def kern(node):
+        """the decision as a Bool kernel over what can be observed of a stream: has a callable flush,
+        reports line_buffering, reports write_through, is a tty"""
+        src = _u(node).replace('"', "'")
+        atoms = {
+            "callable(getattr(stream, 'flush', None))": "hasFlush",
+            "hasattr(stream, 'flush')": "hasFlush",
+            "getattr(stream, 'line_buffering', False)": "lineBuffering",
+            "stream.line_buffering": "lineBuffering",
+            "getattr(stream, 'write_through', False)": "writeThrough",
+            "stream.write_through": "writeThrough",
+        }
+        if src in atoms:
+            return atoms[src]
+        if isinstance(node, ast.Constant) and isinstance(node.value, bool):
+            return "true" if node.value else "false"
+        if isinstance(node, ast.BoolOp):
+            sym = " && " if isinstance(node.op, ast.And) else " || "
+            return "(" + sym.join(kern(v) for v in node.values) + ")"
+        if isinstance(node, ast.UnaryOp) and isinstance(node.op, ast.Not):
+            return "(!" + kern(node.operand) + ")"
+        raise Unsupported("StreamSink._flushable: condition outside the subset: " + src)
+
+    body.append("/-- `self._flushable = %s` as a function of what the stream exposes -/" % _u(fl).replace("-/", "- /"))
+    body.append("def flushableOf (hasFlush lineBuffering writeThrough : Bool) : Bool := %s" % kern(fl))
     w = find_func(tree, "write", cls="StreamSink")
     ops = []
     for st in _strip_doc(w.body):
